@@ -98,6 +98,18 @@ def c01_stages(tier, seed):
     ]
 
 
+def c04_stage(name, docs, maxf, alpha, replay="C04"):
+    return tlc_replay("MC_C04_" + name, "MC_C04", replay,
+                      dict(constants={"DocIds": docs, "MaxFaults": maxf, "Alpha": '"%s"' % alpha},
+                           invariants=["Emit", "WellFormedAlways", "SiblingsUnaffected"]))
+
+
+def c04_stages(tier, seed):
+    if tier == "quick":
+        return [c04_stage("small2", "{1,2,3,4,5}", 2, "small"), c04_stage("full1", "{1,2,3,4,5}", 1, "full")]
+    return [c04_stage("small3", "{1,2,3,4,5}", 3, "small"), c04_stage("full2", "{1,2,3,4,5}", 2, "full")]
+
+
 EXEC_ASSUME = [
     "the reference semantics in spec/Exec.tla + Coerce.tla is a faithful transcription of the GraphQL execution algorithm (checked by in-model theorems KeyPresence/WellFormedRoot and by hand against the specification text)",
     "exhaustive only within the stated bounds (families, selections per set, nodes, depth); schema S1 fixed",
@@ -113,6 +125,13 @@ PROPS = {
              "non-trivial = document with a repeated response key, a variable-driven directive or a fragment "
              "(distinct printed texts counted by the harness)",
         assumptions=EXEC_ASSUME),
+    "C04": dict(
+        stages=c04_stages, level="model_checking",
+        rule="fault enumeration by TLC: the machine MC_C04 walks the resolver invocation sites of 5 fixed documents "
+             "spanning the nullability lattice of S1 and assigns every combination of at most MaxFaults adversarial "
+             "outcomes from the site alphabets (one vector per outcome table); non-trivial = table with >= 1 "
+             "non-natural outcome (distinct tables counted by the harness)",
+        assumptions=EXEC_ASSUME + ["a site is (type, field, source); outcomes per site from the alphabet in MC_C04.tla"]),
 }
 
 
@@ -162,5 +181,16 @@ MANIFEST_TEXT = {
              "printers/projections. Bounded: families and sizes listed in evidence.coverage.families; one fixed schema.",
         technique="TLA+ reference semantics + TLC bounded-exhaustive generation, vectors replayed into the real executor"),
 }
+
+MANIFEST_TEXT["C04"] = dict(
+    text="Model checking as fault enumeration: TLC assigns every combination of up to 2 (quick) / 3 (thorough) adversarial "
+         "outcomes (nil, typed nil, NaN, error, value+error, panic with error/string, thunk, failing thunk, wrong-signature "
+         "thunk, wrong Go kind, out-of-range int, unknown enum value, nil list element, non-possible / unresolvable runtime "
+         "type) to the resolver invocation sites of documents spanning the nullability lattice, proves in the model that the "
+         "reference response is WellFormed and that siblings are unaffected for every table, and each table is replayed into "
+         "Do/Execute/ExecutePlan; the real data tree, error paths and resolver calls must equal the specification's.",
+    note="Trusted: TLC, Exec.tla (null propagation, completion), harness resolvers that act out the outcome table. Bounded: "
+         "5 documents, fault count, one schema.",
+    technique="TLA+ fault-enumeration machine + WellFormed theorem checked by TLC, tables replayed into the real executor")
 
 NOT_APPLICABLE = {}
